@@ -509,9 +509,11 @@ def rand_graph(rng, L, idbase=0, maxw=3, nops=3, charges=True, pool=None, zero_e
     return g
 
 
-def rand_tree(rng, rem, nops=3, pleaf=0.25, maxch=3, root=True, pzero=0.0, pool=None, charges=False, root_q=None):
+def rand_tree(rng, rem, nops=3, pleaf=0.25, maxch=3, root=True, pzero=0.0, pool=None, charges=False, root_q=None, shared=None):
     """Returns (OpTreeNode, polynomial with variable-length words). pzero: probability of an exactly-zero edge coefficient.
-    charges: tree nodes carry random quantum numbers -1..1 (a node that sits on the terminal layer, rem == 0, must carry 0; root_q fixes the root's)."""
+    charges: tree nodes carry random quantum numbers -1..1 (a node that sits on the terminal layer, rem == 0, must carry 0; root_q fixes the root's).
+    shared: a list (pass []) -- inner nodes built so far; with probability 1/4 a child is the SAME OpTreeNode object as an earlier inner node of this tree
+    that still fits into the remaining sites (common tails of terms of different range written once: the object then occurs at different depths)."""
     q = 0
     if charges and rem > 0:
         q = int(rng.integers(-1, 2))
@@ -523,7 +525,13 @@ def rand_tree(rng, rem, nops=3, pleaf=0.25, maxch=3, root=True, pzero=0.0, pool=
     node = ptn.OpTreeNode([], q)
     poly = {}
     for _ in range(nch):
-        child, cp = rand_tree(rng, rem - 1, nops, pleaf, maxch, root=False, pzero=pzero, pool=pool, charges=charges)
+        fits = [(c_, p_) for c_, p_ in shared if max(len(w) for w in p_) <= rem - 1] if shared else []
+        if fits and rng.random() < 0.25:
+            child, cp = fits[int(rng.integers(0, len(fits)))]
+        else:
+            child, cp = rand_tree(rng, rem - 1, nops, pleaf, maxch, root=False, pzero=pzero, pool=pool, charges=charges, shared=shared)
+            if shared is not None and any(len(w) for w in cp):
+                shared.append((child, cp))
         oid = int(rng.integers(0, nops)) if pool is None else int(pool[int(rng.integers(0, min(nops, len(pool))))])
         co = 0.0 if rng.random() < pzero else float(rng.choice([-1, .5, 1, 2]))
         node.add_child(ptn.OpTreeEdge(oid, co, child))
